@@ -350,9 +350,9 @@ def run_mixture(case, R):
         R.fail(mon, f'stacked-raised/{kind}', f'{kind} raised {type(e).__name__} on a stack {lead} although every slice alone succeeds: {str(e)[:120]}', lead=list(lead), opts=case['opts'])
         return
 
-    def noise_fn():
+    def noise_fn(reps=range(2)):
         nz = dict(post=0.0, par=0.0)
-        for rep in range(2):
+        for rep in reps:
             rr = np.random.default_rng([*case['rs'], 9, rep])
             dd = dict(y=s.data['y'] * (1 + 2.0 ** -50 * rr.uniform(-1, 1, size=s.data['y'].shape)))
             m2, p2 = run(dd, s.init, s.saliency, s.mask)
